@@ -104,6 +104,9 @@ func main() {
 			}
 		}()
 		ch.Run(c)
+		if *tier == "thorough" && *patch == "" {
+			sensitivityAudit(c, *id, *repo, verifDir)
+		}
 	}()
 	os.Exit(c.Finish())
 }
